@@ -43,48 +43,103 @@ def enum_cases(ctx):
     return out
 
 
+PAIRS_PER_DOC = 110         # thorough tier: class pairs tried on one document (stratified sample, see class_pairs)
+LEAF_CAP = {'quick': 10, 'thorough': 40}
+FAULT_CLASSES = ['bad_lhs', 'both_receivers', 'both_sources', 'builtin_override', 'cyclic_encapsulation',
+                 'definition_through_connection', 'duplicate_component', 'duplicate_units', 'incompatible_units',
+                 'initial_value_and_equation', 'missing_component', 'missing_variable', 'no_direction_source',
+                 'no_direction_target', 'offset_units', 'reaction', 'second_feed', 'two_definitions',
+                 'undefined_identifier', 'undefined_number_units', 'undefined_units_reference',
+                 'undefined_variable_units', 'unit_cycle', 'units_in_component', 'verbatim_duplicate']
+
+
+def class_pairs(seed, ndocs):
+    """the (unordered, incl. equal) pairs of fault classes each document is asked to combine: one fixed shuffle of all
+    pairs (seeded), dealt round-robin, so that over the run every pair of classes is tried on many documents"""
+    allp = [(a, b) for i, a in enumerate(FAULT_CLASSES) for b in FAULT_CLASSES[i:]]
+    random.Random(seed * 7919 + 13).shuffle(allp)
+    out, k = [], 0
+    for _ in range(ndocs):
+        out.append([allp[(k + j) % len(allp)] for j in range(min(PAIRS_PER_DOC, len(allp)))])
+        k += PAIRS_PER_DOC
+    return out, len(allp)
+
+
+def doc_cases(seed, tier, index, pairs):
+    """all cases built from one generated valid document; -> (cases, (pairs possible, pairs run))"""
+    out = []
+    doc = G.gen_valid(seed)
+    rng = random.Random(seed + 7)
+    out.append({'kind': 'valid', 'doc': doc, 'gen_seed': seed, 'expect_raise': False})
+    sites = G.fault_sites(doc)
+    leaf = [s for s in sites if s[0] in LEAF_FAULTS]
+    rest = [s for s in sites if s[0] not in LEAF_FAULTS]
+    if len(leaf) > LEAF_CAP[tier]:
+        leaf = rng.sample(leaf, LEAF_CAP[tier])
+    singles = []
+    for f in rest + leaf:
+        fd = G.apply_fault(doc, f)
+        if fd is not None:
+            singles.append(f)
+            out.append({'kind': 'fault', 'doc': fd, 'gen_seed': seed, 'expect_raise': True})
+    possible = run = 0
+    if tier == 'thorough':
+        by = {}
+        for f in singles:
+            by.setdefault(f[0], []).append(f)
+        classes = sorted(by)
+        possible = len(classes) * (len(classes) + 1) // 2
+        for a, b in pairs:
+            if a not in by or b not in by:
+                continue
+            fa, fb = rng.choice(by[a]), rng.choice(by[b])
+            if fa == fb:
+                continue
+            d1 = G.apply_fault(doc, fa)
+            try:
+                d2 = G.apply_fault(d1, fb) if d1 is not None else None
+            except Exception:
+                d2 = None
+            if d2 is not None:
+                run += 1
+                out.append({'kind': 'pair', 'doc': d2, 'gen_seed': seed, 'expect_raise': True})
+    for kind in G.SCHEMA_FAULTS:
+        t = G.schema_fault_text(doc, kind)
+        if t is not None and (tier == 'thorough' or index < 6):
+            out.append({'kind': 'schema', 'text': t, 'fault': kind, 'gen_seed': seed, 'expect_raise': True})
+    return out, (possible, run)
+
+
 def fault_cases(ctx):
+    """(kept for the search budget and replays) every case of the tier, built in this process"""
     ndocs = 24 if ctx.tier == 'quick' else 150
+    pairs, _ = class_pairs(ctx.seed, ndocs)
     out = []
     for i in range(ndocs):
-        seed = ctx.seed * 100000 + i
-        doc = G.gen_valid(seed)
-        rng = random.Random(seed + 7)
-        out.append({'kind': 'valid', 'doc': doc, 'gen_seed': seed, 'expect_raise': False})
-        sites = G.fault_sites(doc)
-        leaf = [s for s in sites if s[0] in LEAF_FAULTS]
-        rest = [s for s in sites if s[0] not in LEAF_FAULTS]
-        if ctx.tier == 'quick' and len(leaf) > 10:
-            leaf = rng.sample(leaf, 10)
-        singles = []
-        for f in rest + leaf:
-            fd = G.apply_fault(doc, f)
-            if fd is not None:
-                singles.append((f, fd))
-                out.append({'kind': 'fault', 'doc': fd, 'gen_seed': seed, 'expect_raise': True})
-        if ctx.tier == 'thorough':
-            # pairs: for every two fault classes one random pair of sites
-            by = {}
-            for f, fd in singles:
-                by.setdefault(f[0], []).append(f)
-            classes = sorted(by)
-            for a in range(len(classes)):
-                for b in range(a, len(classes)):
-                    fa, fb = rng.choice(by[classes[a]]), rng.choice(by[classes[b]])
-                    if fa == fb:
-                        continue
-                    d1 = G.apply_fault(doc, fa)
-                    try:
-                        d2 = G.apply_fault(d1, fb) if d1 is not None else None
-                    except Exception:
-                        d2 = None
-                    if d2 is not None:
-                        out.append({'kind': 'pair', 'doc': d2, 'gen_seed': seed, 'expect_raise': True})
-        for kind in G.SCHEMA_FAULTS:
-            t = G.schema_fault_text(doc, kind)
-            if t is not None and (ctx.tier == 'thorough' or i < 6):
-                out.append({'kind': 'schema', 'text': t, 'fault': kind, 'gen_seed': seed, 'expect_raise': True})
+        out += doc_cases(ctx.seed * 100000 + i, ctx.tier, i, pairs[i])[0]
     return out
+
+
+def job(args):
+    """one pool task: build the cases of one document (or take the given ones), run the implementation, the extracted
+    model and the comparison; -> (events, (pairs possible, pairs run), samples)"""
+    kind, payload, use_model = args
+    stats = (0, 0)
+    if kind == 'doc':
+        seed, tier, index, pairs = payload
+        cases, stats = doc_cases(seed, tier, index, pairs)
+    else:
+        cases = payload
+    try:
+        imps = [impl_work(c) for c in cases]
+        ev = events_of(cases, imps, use_model)
+    finally:
+        for d in list(G._TMP.values()):
+            shutil.rmtree(d, ignore_errors=True)
+        G._TMP.clear()
+    samples = [{'kind': c['kind'], 'faults': (c.get('doc') or {}).get('faults'),
+                'text': (c.get('text') or G.to_xml(c['doc']))[:1500]} for c in cases[:1]]
+    return ev, stats, samples
 
 
 def fault_names(case):
@@ -101,42 +156,57 @@ def describe(case):
     return 'generated document %s with fault(s) %r' % (case.get('gen_seed'), (case.get('doc') or {}).get('faults', []))
 
 
-def evaluate(ctx, cases, imps, use_model=True):
+def events_of(cases, imps, use_model=True):
+    """pure: the list of ('count' | 'violation' | 'tie' | 'corr', ...) events for these cases"""
+    ev = []
     modelled = [i for i, (c, r) in enumerate(zip(cases, imps)) if c['kind'] != 'schema' and r['status'] != 'schema']
     mods = {}
-    if use_model and ctx.model_ok() and modelled:
+    if use_model and modelled:
         uts = G.units_table([cases[i]['doc'] for i in modelled])
         sx = [G.doc_sexp(cases[i]['doc'], u) for i, u in zip(modelled, uts)]
-        outs = vlib.model_run(G.FN_LOAD, [s for s, _ in sx])
-        for i, (s, it), o in zip(modelled, sx, outs):
+        outs = vlib.model_run(G.FN_LOAD, [x for x, _ in sx])
+        for i, (x, it), o in zip(modelled, sx, outs):
             mods[i] = G.decode_model(o, it, cases[i]['doc'])
     for i, (case, imp) in enumerate(zip(cases, imps)):
         kind = case['kind']
         names = fault_names(case)
         hk = kind if kind in ('enum', 'valid', 'schema') else '+'.join(sorted(set(names)))
-        ctx.count(case_key=(kind, case.get('gen_seed'), case.get('fault'), (case.get('doc') or {}).get('faults'),
-                            (case.get('doc') or {}).get('enum'), case.get('swap')),
-                  nontrivial=kind != 'valid', kind=hk if kind != 'pair' else 'pair')
+        ev.append(('count', (kind, case.get('gen_seed'), case.get('fault'), (case.get('doc') or {}).get('faults'),
+                             (case.get('doc') or {}).get('enum'), case.get('swap')),
+                   kind != 'valid', hk if kind != 'pair' else 'pair'))
         # ---- stage D: the property on the implementation
-        if case['expect_raise']:
-            if imp['status'] == 'ok':
-                ctx.violation('%s: load_model returned a model (%d variables, %d equations) instead of raising'
-                              % (describe(case), len(imp['vars']), len(imp['eqs'])), slim(case))
-            elif imp.get('family') == 'Timeout':
-                ctx.violation('%s: load_model did not terminate within 10 s' % describe(case), slim(case))
+        if case['expect_raise'] and imp['status'] == 'ok':
+            ev.append(('violation', '%s: load_model returned a model (%d variables, %d equations) instead of raising'
+                       % (describe(case), len(imp['vars']), len(imp['eqs'])), slim(case)))
         elif imp.get('family') == 'Timeout':
-            ctx.violation('%s: load_model did not terminate within 10 s' % describe(case), slim(case))
-        if kind == 'schema' and imp['status'] not in ('schema', 'err'):
-            pass
+            ev.append(('violation', '%s: load_model did not terminate within 10 s' % describe(case), slim(case)))
         # ---- correspondence
         if i in mods:
-            ctx.corr_cases += 1
+            ev.append(('corr',))
             d = G.compare_records(mods[i], imp, ordered=False)
             if d is not None:
-                ctx.tie_break('correspondence (Model/Loader.v vs parser.py) on %s: %s' % (describe(case), d), slim(case))
+                ev.append(('tie', 'correspondence (Model/Loader.v vs parser.py) on %s: %s' % (describe(case), d),
+                           slim(case)))
         elif kind != 'schema' and imp['status'] == 'schema' and kind != 'enum':
-            ctx.tie_break('harness: generated document %s is schema-invalid: %s' % (describe(case), imp.get('msg')),
-                          slim(case))
+            ev.append(('tie', 'harness: generated document %s is schema-invalid: %s' % (describe(case), imp.get('msg')),
+                       slim(case)))
+    return ev
+
+
+def apply_events(ctx, ev):
+    for e in ev:
+        if e[0] == 'count':
+            ctx.count(case_key=e[1], nontrivial=e[2], kind=e[3])
+        elif e[0] == 'violation':
+            ctx.violation(e[1], e[2])
+        elif e[0] == 'tie':
+            ctx.tie_break(e[1], e[2])
+        elif e[0] == 'corr':
+            ctx.corr_cases += 1
+
+
+def evaluate(ctx, cases, imps, use_model=True):
+    apply_events(ctx, events_of(cases, imps, use_model and ctx.model_ok()))
 
 
 def slim(case):
@@ -145,30 +215,42 @@ def slim(case):
 
 
 def run(ctx):
-    ctx.rule = ('valid documents from tools/loader_gen.py (2-7 components, encapsulation depth <= 3, values routed over 1-4 '
-                'hops, unit changes, ODEs, cmeta ids, shuffled element order); 32 fault classes injected at every '
-                'applicable site singly (quick: at most 10 identifier / number-unit sites per document), one random site '
-                'pair for every two classes (thorough); 9 schema-invalid variants (implementation only); the 9x9x4 '
-                'two-component interface documents in both orientations (quick: 60 of 324); non-trivial = carries a fault')
+    ndocs = 24 if ctx.tier == 'quick' else 150
+    pairs, npairs = class_pairs(ctx.seed, ndocs)
     ctx.trusted += ['the <units> part enters the model as the table computed by Model/UnitsLoader.v (C03 check) for the '
                     'same document', 'lxml parsing and RELAX NG validation are not modelled (schema-invalid documents are '
                     'run on the implementation only)', 'MathML transpilation is C02: equations enter the model as trees '
                     'written by the generator in document order']
-    cases = load_corpus() + enum_cases(ctx) + fault_cases(ctx)
-    try:
-        imps = vlib.pmap(impl_work, cases)
-        evaluate(ctx, cases, imps)
-        if ctx.tie_breaks and not ctx.violations:
-            # a proof or the correspondence broke: look for a concrete failing input with a larger budget
-            sub = vlib.Ctx(ctx.prop, 'thorough', ctx.seed + 1)
-            more = fault_cases(sub)[:20000 if ctx.tier == 'thorough' else 6000] + [c for c in enum_cases(sub)]
-            evaluate(ctx, more, vlib.pmap(impl_work, more), use_model=False)
-    finally:
-        for d in list(G._TMP.values()):
-            shutil.rmtree(d, ignore_errors=True)
-    for c in cases[:400:80]:
-        ctx.sample({'kind': c['kind'], 'faults': (c.get('doc') or {}).get('faults'),
-                    'text': (c.get('text') or G.to_xml(c['doc']))[:1500]})
+    use_model = ctx.model_ok()
+    fixed = load_corpus() + enum_cases(ctx)
+    jobs = [('cases', fixed[k:k + 60], use_model) for k in range(0, len(fixed), 60)]
+    jobs += [('doc', (ctx.seed * 100000 + i, ctx.tier, i, pairs[i]), use_model) for i in range(ndocs)]
+    possible = run_pairs = 0
+    samples = []
+    for ev, st, sm in vlib.pmap(job, jobs):
+        apply_events(ctx, ev)
+        possible += st[0]
+        run_pairs += st[1]
+        samples += sm
+    ctx.rule = ('valid documents from tools/loader_gen.py (2-7 components, encapsulation depth <= 3, values routed over 1-4 '
+                'hops, unit changes, ODEs, cmeta ids, shuffled element order); %d fault classes injected at every '
+                'applicable site singly (identifier / number-unit sites: at most %d per document); thorough: pairs of '
+                'faults, a stratified sample -- one fixed shuffle (seeded by VERIF_SEED) of all %d pairs of classes dealt '
+                '%d per document, one random site pair each: %d pairs run out of %d applicable (class pair, document) '
+                'combinations; 9 schema-invalid variants (implementation only); the 9x9x4 two-component interface '
+                'documents in both orientations (quick: 60 of 324); non-trivial = carries a fault'
+                % (len(FAULT_CLASSES), LEAF_CAP[ctx.tier], npairs, PAIRS_PER_DOC, run_pairs, possible))
+    ctx.extra['fault_pairs_run'] = run_pairs
+    ctx.extra['fault_pairs_applicable'] = possible
+    if ctx.tie_breaks and not ctx.violations:
+        # a proof or the correspondence broke: look for a concrete failing input with a larger budget (oracle only)
+        more_docs = 240 if ctx.tier == 'quick' else 300
+        mp, _ = class_pairs(ctx.seed + 1, more_docs)
+        jobs = [('doc', ((ctx.seed + 1) * 100000 + 50000 + i, 'thorough', i, mp[i]), False) for i in range(more_docs)]
+        for ev, st, sm in vlib.pmap(job, jobs):
+            apply_events(ctx, [e for e in ev if e[0] != 'tie'])
+    for x in samples[::max(1, len(samples) // 5)][:5]:
+        ctx.sample(x)
 
 
 def load_corpus():
